@@ -5,6 +5,7 @@
 -/
 import MosVerif.Lemmas.RouterBasic
 import MosVerif.Lemmas.OptPop
+import MosVerif.Lemmas.RouterSpecMain
 import MosVerif.Model.RouterIO
 namespace MosVerif.C12
 open MosVerif.Wire MosVerif.Router
@@ -135,6 +136,40 @@ theorem ecs_v6 (a0 a1 a2 a3 a4 a5 a6 a7 a8 a9 a10 a11 a12 a13 a14 a15 : UInt8)
 
 /-- no ECS for an unknown client address -/
 theorem ecs_none : makeECS .none = none := rfl
+
+/-- ★ The ECS option the proxy builds is octet for octet the one the executable specification expects
+    (code 8, length 7 / 11, family, /24 or /56, scope 0, the first 3 / 7 address octets; nothing when ECS is off
+    or the address unknown) — for every client address, whatever its length. -/
+theorem ecs_matches_spec (env : Env) :
+    (if env.ecs ∧ env.addr.isValid then (makeECS env.addr).getD [] else []) = RouterIO.wantEcs env :=
+  reqData_eq env
+
+/-- ★ What the upstream receives, decoded from the wire: one additional record, the proxy's own OPT (UDP
+    size 1200, TTL 0) carrying exactly the expected ECS option or nothing. -/
+theorem upstream_query_wire_opt (env : Env) (q : Question) (hq : questionWF q = true) :
+    ∃ wire fm, packReq env q = .ok wire ∧ unpackMsg wire = .ok fm ∧
+      fm.additionals = [⟨[], typeOPT, 1200, 0, .raw (RouterIO.wantEcs env)⟩] := by
+  obtain ⟨wire, h1, h2⟩ := packReq_decodes env q hq
+  exact ⟨wire, _, h1, h2, by rw [reqMsg_eq]; rfl⟩
+
+/-- ★ The EDNS0 judgement of the executable specification (client side: OPT iff the query had one, and then the
+    proxy's own; upstream side: one OPT, expected ECS data) accepts the model on every path, for every decoded
+    query — the C12 face of `C03.model_meets_spec`, under this file's `UpsOneOpt`. -/
+theorem edns0_meets_spec (env : Env) (m : Msg) (hm : msgWF m = true) (hrej : ∀ ru ∈ env.rules, ru.reject < 16)
+    (hups : UpsOneOpt env) :
+    RouterIO.spec env m ⟨(handle env m).resp, (handle env m).forwards⟩ = "ok" :=
+  spec_model env m (msgWF_parts hm).2.1 hrej (fun u resp h => Nat.le_succ_of_le (hups u resp h))
+
+/-- `UpsOneOpt` is not the weakest condition: a second OPT in the relayed reply is removed by the EDNS0 fix-up of
+    `handleReqMsg` (`PopEDNS0` before the proxy's own OPT is attached) — two are harmless, three are not
+    (see the examples next to `C03.model_meets_spec`). -/
+theorem two_opts_removed (m x : Msg) (hx : countOpt x.additionals ≤ 2) :
+    countOpt (optFix m (removeEDNS0 x)).additionals = if queryHasOpt m then 1 else 0 := by
+  have h1 : countOpt (removeEDNS0 x).additionals ≤ 1 := by
+    simp only [removeEDNS0]; rw [countOpt_pop]; omega
+  have := (optFix_opt m (removeEDNS0 x) h1).1
+  rw [optCount_eq] at this
+  exact this
 
 /-- non-vacuity of `UpsOneOpt`, and a concrete v4 witness -/
 example : UpsOneOpt ⟨true, .v4 [10, 1, 2, 3], [], [.fail]⟩ := by
